@@ -89,11 +89,22 @@ func fixedData(n int, salt int) []byte {
 func TestRoundTrip(t *testing.T) {
 	pbt.Run(t, pbt.Sub[RT]{
 		Name: "roundtrip", Quick: 120000, Thorough: 6000000,
-		EnumDesc: "all 255x255 (version, network) pairs x {bitcoin-script, bitcoin-template} x payload lengths {0,1,20} (quick) / {0,1,2,20,75,76,255,1000} (thorough)",
+		EnumDesc: "all 255x255 (version, network) pairs x {bitcoin-script, bitcoin-template} x payload lengths {0,1,20} (quick) / {0,1,2,20,75,76,255,1000} (thorough); every payload length 0..4200 (quick) / 0..20000 (thorough) for both prefixes",
 		Enum: func(tier string, yield func(RT)) {
 			lens := []int{0, 1, 20}
 			if tier == "thorough" {
 				lens = []int{0, 1, 2, 20, 75, 76, 255, 1000}
+			}
+			// every payload length in a range (length-dependent fast paths and buffers have their
+			// boundary somewhere): 0..4200 quick, 0..20000 thorough, both prefixes
+			top := 4200
+			if tier == "thorough" {
+				top = 20000
+			}
+			for l := 0; l <= top; l++ {
+				for pi, p := range []string{bscript.PrefixScript, bscript.PrefixTemplate} {
+					yield(RT{Prefix: p, Version: 1 + l%255, Network: 1 + l%255, Data: fixedData(l, l+pi)})
+				}
 			}
 			for v := 1; v <= 255; v++ {
 				for n := 1; n <= 255; n++ {
@@ -174,7 +185,7 @@ func genText(t *rapid.T) Text {
 	// the base is laid out the way the library itself writes it, so that the
 	// corruption starts from a string the library accepts
 	base := bscript.EncodeBIP276(bscript.BIP276{Prefix: p, Version: v, Network: n, Data: gen.Bytes(t, dl, "data")})
-	op := rapid.SampledFrom([]string{"none", "subst", "subst", "subst", "delete", "insert", "truncate", "append", "swap", "upper"}).Draw(t, "op")
+	op := rapid.SampledFrom([]string{"none", "subst", "subst", "subst", "delete", "insert", "truncate", "append", "swap", "upper", "suffix", "suffix", "lead"}).Draw(t, "op")
 	s := []byte(base)
 	switch op {
 	case "subst":
@@ -191,6 +202,12 @@ func genText(t *rapid.T) Text {
 		s = s[:rapid.IntRange(0, len(s)-1).Draw(t, "i")]
 	case "append":
 		s = append(s, alphabet[rapid.IntRange(0, len(alphabet)-1).Draw(t, "c")])
+	case "suffix": // the complete valid text followed by what a URI, a query string or a line of a file would carry on with
+		sep := rapid.SampledFrom([]string{"?", "#", "&", ";", "/", "=", "%", "+", ",", " ", "\t", "\r\n", "\x00", "|", "'", "\""}).Draw(t, "sep")
+		tail := rapid.SampledFrom([]string{"", "amount=1", "a", "00", "label=x&amount=2", "bitcoin-script:0101", "\n"}).Draw(t, "tail")
+		s = append(s, (sep + tail)...)
+	case "lead": // something in front of the complete valid text
+		s = append([]byte(rapid.SampledFrom([]string{" ", "\n", "bitcoin:", "?", "//", "BITCOIN-SCRIPT:", "\x00", "x"}).Draw(t, "lead")), s...)
 	case "swap":
 		if len(s) >= 2 {
 			i := rapid.IntRange(0, len(s)-2).Draw(t, "i")
@@ -206,8 +223,8 @@ func genText(t *rapid.T) Text {
 func TestCorruption(t *testing.T) {
 	pbt.Run(t, pbt.Sub[Text]{
 		Name: "corruption", Quick: 400000, Thorough: 20000000,
-		Gen:   genText,
-		Check: checkText,
+		Gen:      genText,
+		Check:    checkText,
 		EnumDesc: "every single-character substitution (31-symbol alphabet incl. ':' and non-hex) at every position of 6 (quick) / 40 (thorough) valid encodings",
 		Enum: func(tier string, yield func(Text)) {
 			nb := 6
